@@ -899,8 +899,8 @@ func readDamagedTable(cc *CompCase, d []byte, keys [][]byte, vals map[string][]b
 	select {
 	case msg := <-res:
 		return msg
-	case <-time.After(20 * time.Second):
-		return "hang: a read of the damaged table did not return within 20 s"
+	case <-time.After(120 * time.Second):
+		return "hang: a read of the damaged table did not return within 120 s"
 	}
 }
 
